@@ -71,14 +71,14 @@ def positioned_nodes(tree):
 def classify_program(stored, raw):
     """Narrow signatures of the known findings, from the (minimised) failing program."""
     lines = raw.split("\n")
-    if "_pos=" in stored:  # tested first: the decorated-async-def finding is repaired (d0d94f6), this one is open
-        return SIG_POSSTR
-    if re.search(r"(?m)^\s*@.*\bfor\b.+\bin\b", stored):
-        return SIG_DECOSCOPE
+    if any(0x1C <= ord(ch) <= 0x1F for ch in raw):
+        return SIG_FS
     for m in re.finditer(r"(?i)#\s*paroxython\s*:\s*(.*)", raw):
         for tok in m.group(1).split():
             if not tok.startswith(("-", "...", "…")) and tok.lstrip("+").split(":")[0].rstrip(".…") in PREREQ:
                 return SIG_HINTPATH
+    if "_pos=" in stored:  # repaired (b1d74a8): tested after the open findings
+        return SIG_POSSTR
     if re.search(r"(?m)^\s*@.*\n\s*async\s+def\b", stored):  # repaired (d0d94f6): tested last, the open findings first
         return SIG_ASYNC
     return None
